@@ -79,6 +79,7 @@ def run(ctx: Ctx, chk) -> None:
     chk.run_rule(save_serial, ctx)
     chk.run_rule(open_flags, ctx)
     chk.run_rule(live_moved, ctx)
+    chk.run_rule(dump_total, ctx)
     # replace targets
     for fl in pers.mro_methods().values():
         for f in fl:
@@ -407,3 +408,129 @@ def inplace2(ctx: Ctx, chk) -> None:
                     chk.ok(rule, key, "the block only writes text that was serialised before the file was opened", ctx.loc(f, w))
                 else:
                     chk.refute(rule, key, f"`{norm(bad)[:70]}` runs after the persistence file was opened for writing (already truncated): if it raises, the save dies leaving an empty or partial file although no file operation failed", ctx.loc(f, bad))
+
+
+JSON_SCALAR_FIELDS = ("Int", "Integer", "Str", "String", "Bool", "Boolean", "Float", "Email", "Url", "URL", "UUID", "DateTime", "Date", "Time", "TimeDelta", "IP", "IPv4", "IPv6", "Enum")
+UNBOUNDED_NUMBERS = ("decimal.Decimal", "fractions.Fraction")
+
+
+def _json_able(ctx: Ctx, m, e: ast.expr, depth: int = 0) -> str | None:
+    """None when the marshmallow field expression always serialises to a JSON type, else the reason."""
+    eea = ctx.eea()
+    fe = eea.field_expr(m, e)
+    if fe is None:
+        if isinstance(e, (ast.Name, ast.Attribute)):
+            d = ctx.prog.resolve_expr(m, e)
+            if d is not None and d.kind == "class":
+                return None  # a schema class (Nested argument)
+        return f"`{norm(e)[:40]}` is not a recognised field declaration"
+    fm, call = fe
+    d = ctx.prog.resolve_expr(fm, call.func)
+    kind = (d.obj if d is not None and d.kind == "external" else d.obj.fq if d is not None and d.kind == "class" else norm(call.func)).rsplit(".", 1)[-1]
+    kws = {kw.arg: kw.value for kw in call.keywords}
+    if d is not None and d.kind == "class":
+        ser = d.obj.find_method("_serialize")
+        if ser is not None:
+            ann = norm(ser.node.returns) if ser.node.returns is not None else None
+            return None if ann in ("int", "str", "bool", "float", "int | None", "str | None") else f"{d.obj.name}._serialize is not annotated to return a JSON scalar"
+        exts = [b.rsplit(".", 1)[-1] for b in d.obj.external_bases() if b.startswith("marshmallow.fields")]
+        kind = exts[0] if exts else kind
+    if kind in JSON_SCALAR_FIELDS:
+        return None
+    if kind == "Decimal":
+        return None if "as_string" in kws and isinstance(kws["as_string"], ast.Constant) and kws["as_string"].value is True else "fields.Decimal without as_string=True serialises to a decimal.Decimal object"
+    if kind == "Nested":
+        return None  # the nested schema's own fields are judged separately
+    if kind in ("Dict", "Mapping"):
+        for part in ("keys", "values"):
+            if part not in kws:
+                return f"fields.{kind} without `{part}=`: the {part} are passed through as they are"
+            why = _json_able(ctx, fm, kws[part], depth + 1)
+            if why:
+                return why
+        return None
+    if kind in ("List", "Tuple"):
+        if not call.args and "cls_or_instance" not in kws and "tuple_fields" not in kws:
+            return f"fields.{kind} without an inner field"
+        inner = call.args[0] if call.args else kws.get("cls_or_instance") or kws.get("tuple_fields")
+        if isinstance(inner, (ast.Tuple, ast.List)):
+            for x in inner.elts:
+                why = _json_able(ctx, fm, x, depth + 1)
+                if why:
+                    return why
+            return None
+        return _json_able(ctx, fm, inner, depth + 1)
+    return f"fields.{kind} passes the attribute value through as it is"
+
+
+def dump_total(ctx: Ctx, chk) -> None:
+    """Decides the structural part only: *which* operations run between the truncation and the completed write, and
+    whether they can fail because of what the registry holds - not the crash behaviour itself."""
+    rule = "INPLACE-4"
+    chk.rule(rule, "while the persistence file is open for writing (already truncated) nothing but the write itself can fail: when json.dumps runs inside that block, the dumped data is JSON-able by construction - every field of NodeSchema / ChildSchema coerces its attribute to a JSON type (Int / Str / Bool / Nested / Dict with both `keys=` and `values=` fields; no Raw / pass-through field), and no integer of the registry comes from an unbounded number (int(Decimal(..)) / int(Fraction(..)): an integer of more than 4300 digits cannot be printed by json.dumps, while int(<text>) refuses such text already) - otherwise one unusual value raises TypeError / ValueError after the truncation and the saved registry is gone")
+    pers = ctx.cls(PERS)
+    save = pers.find_method("save")
+    if save is None:
+        raise AnalysisError("anchor vanished: Persistence.save")
+    fi = ctx.inl(save)
+    dumps = [n for n in ctx.own_nodes(fi) if isinstance(n, ast.Call) and norm(n.func).endswith("dumps")]
+    if len(dumps) != 1:
+        raise AnalysisError(f"INPLACE-4: expected one json.dumps in Persistence.save, found {len(dumps)}")
+    d = dumps[0]
+    # is the dumps evaluated inside a `with <writing open>` block?
+    inside = None
+    cur: ast.AST = d
+    parents = {c: p for p in ast.walk(fi.node) for c in ast.iter_child_nodes(p)}
+    while cur in parents:
+        prev, cur = cur, parents[cur]
+        if isinstance(cur, (ast.With, ast.AsyncWith)) and any(prev is s or prev in ast.walk(s) for s in cur.body):
+            for it in cur.items:
+                for c in ast.walk(it.context_expr):
+                    if isinstance(c, ast.Call) and any(o in callee_names(ctx, fi, c) for o in OPENERS):
+                        mode = "r"
+                        if len(c.args) >= 2:
+                            mode = _fold(ctx, fi, c.args[1]) or "?"
+                        for kw in c.keywords:
+                            if kw.arg == "mode":
+                                mode = _fold(ctx, fi, kw.value) or "?"
+                        if any(ch in mode for ch in "wax+?"):
+                            inside = c
+    chk.instance(rule)
+    key = f"{save.fq}::dumps-inside-open"
+    if inside is None:
+        chk.ok(rule, key, "the text is built before any file is opened for writing: a value json.dumps refuses fails the save, not the file", ctx.loc(fi, d))
+        return
+    chk.ok(rule, key, f"`{norm(d)[:50]}` runs while `{norm(inside)[:50]}` holds the truncated file: the data must be JSON-able by construction (checked below)", ctx.loc(fi, d))
+    # (a) every schema field on the dump path coerces
+    n = 0
+    for sfq in ("aiomysensors.model.node.NodeSchema", "aiomysensors.model.node.ChildSchema"):
+        s = ctx.cls(sfq)
+        for name in ctx.eea().schema_field_names(s) or []:
+            val = next((c.attrs[name] for c in s.repo_mro() if name in c.attrs), None)
+            if val is None:
+                continue
+            n += 1
+            chk.instance(rule)
+            owner = next(c for c in s.repo_mro() if name in c.attrs)
+            why = _json_able(ctx, owner.module, val)
+            k2 = f"{sfq}.{name}::json-able"
+            if why is None:
+                chk.ok(rule, k2, "serialises to a JSON type whatever the attribute holds (or fails before the file is opened)", f"{owner.module.relpath}:{val.lineno}", sample=name in ("values", "node_id"))
+            else:
+                chk.refute(rule, k2, f"{s.name}.{name}: {why} - an attribute value that json.dumps cannot print (bytes, Decimal, an object set through the node API) raises TypeError inside the open block of save, after the file was truncated: the previously saved registry is lost", f"{owner.module.relpath}:{val.lineno}")
+    chk.floor(rule, "schema fields on the dump path", n, 12)
+    # (b) integers of the registry are bounded by the text -> int conversion limit
+    m_ = 0
+    for f in ctx.prog.all_functions():
+        if not f.module.name.startswith(("aiomysensors.model", "aiomysensors.gateway")):
+            continue
+        for node in ctx.own_nodes(f):
+            if isinstance(node, ast.Call) and isinstance(node.func, ast.Name) and node.func.id in ("int", "round") and node.args:
+                m_ += 1
+                t = ctx.prog.type_of(f.module, node.args[0]) or ""
+                if any(u in t for u in UNBOUNDED_NUMBERS):
+                    chk.instance(rule)
+                    chk.refute(rule, fkey(f, node) + "::unbounded-int", f"`{norm(node)[:60]}` turns a {t.rsplit('.', 1)[-1]} into an integer of any size ('1e5000' is a 5001-digit integer): stored in the registry it makes json.dumps raise ValueError (more than 4300 digits) inside the open block of save, after the file was truncated", ctx.loc(f, node))
+    chk.instance(rule)
+    chk.ok(rule, "aiomysensors.model::int-conversions", f"{m_} int()/round() conversions in the model / gateway modules looked at: arguments typed {', '.join(UNBOUNDED_NUMBERS)} are refuted", "src/aiomysensors/model", sample=False)
+    chk.floor(rule, "int conversions in the model", m_, 8)
